@@ -1,5 +1,6 @@
 import Drv.Basic
 import Drv.PureExec
+import Codec
 /-! The model side of the line protocol: one operation per line, one observation per line. -/
 namespace Drv
 open Sodg
@@ -119,6 +120,39 @@ def execLine (w : World) (line : String) : World × String :=
       | some .unmodelled => (w, "unmodelled")
       | none => (w, "bad-op")
     | none => (w, "bad-op")
+  | ["save", h] =>
+    match (parseHandle h).bind w.get with
+    | some (.live g) => (w, "ok " ++ hexOfBytes (Cd.save g))
+    | some .dead => (w, "dead")
+    | some .unmodelled => (w, "unmodelled")
+    | none => (w, "bad-op")
+  | ["reload", h, h'] =>
+    match parseHandle h, parseHandle h' with
+    | some a, some b =>
+      match w.get a with
+      | some (.live g) =>
+        match Cd.load g.n (Cd.save g) with
+        | .ok g' => (w.set b (.live g'), "ok ; " ++ showNats (keys g'))
+        | .error .panic => (w.set b .dead, "panic")
+        | .error _ => (w.set b .dead, "err")
+      | some .dead => (w.set b .dead, "dead")
+      | some .unmodelled => (w.set b .unmodelled, "unmodelled")
+      | none => (w, "bad-op")
+    | _, _ => (w, "bad-op")
+  | ["loadcuts", h, step] =>
+    match (parseHandle h).bind w.get, step.toNat? with
+    | some (.live g), some step =>
+      let img := Cd.save g
+      let size := img.length
+      let ks := (List.range size).filter (fun k => step ≤ 1 ∨ k % step = 0 ∨ size - k ≤ 64 ∨ k < 64)
+      let bad := ks.filterMap (fun k => match Cd.load g.n (img.take k) with
+        | .ok _ => some s!"{k}:ok"
+        | .error .panic => some s!"{k}:panic"
+        | .error _ => none)
+      (w, s!"ok {size} {ks.length} bad=[{",".intercalate bad}]")
+    | some .dead, _ => (w, "dead")
+    | some .unmodelled, _ => (w, "unmodelled")
+    | _, _ => (w, "bad-op")
   | cmd :: h :: rest =>
     match parseHandle h with
     | none => (w, "bad-op")
